@@ -114,6 +114,40 @@ def functions_zeroth(rep, seed):
                     rep.violation("%s raises %s" % (name, type(ex).__name__), {"input_shape": shp, "D": D, "P": P, "what": repr(ex)[-300:]})
 
 
+def function_comparisons(rep):
+    """comparison operators on tracer nodes: the truth value NumPy gives for the wrapped values (ties included), so that
+    data-dependent branches take the same path while recording"""
+    import operator
+    algopy = load_algopy()
+    from algopy import UTPM
+    vals = [0.0, 1.0, -2.0, 1.0]
+    for a in vals:
+        for b in vals:
+            for kind in ("float", "ndarray", "utpm"):
+                if kind == "float":
+                    xa, xb, ra, rb = a, b, a, b
+                elif kind == "ndarray":
+                    xa, xb = numpy.array([a, 1.0]), numpy.array([b, 1.0]); ra, rb = xa, xb
+                else:
+                    xa, xb = UTPM(numpy.array([[[a, 1.0]], [[5.0, -3.0]]])), UTPM(numpy.array([[[b, 1.0]], [[-7.0, 2.0]]]))
+                    ra, rb = xa.data[0, 0], xb.data[0, 0]
+                cg = algopy.CGraph()
+                fa, fb = algopy.Function(xa), algopy.Function(xb)
+                cg.trace_off()
+                for nm, op in (("<", operator.lt), ("<=", operator.le), (">", operator.gt), (">=", operator.ge)):
+                    want = bool(numpy.all(op(ra, rb)))
+                    for desc, call in (("F %s F" % nm, lambda: op(fa, fb)), ("F %s value" % nm, lambda: op(fa, xb)), ("value %s F" % nm, lambda: op(xa, fb))):
+                        if kind != "float" and desc.startswith("value"):
+                            continue          # ndarray/UTPM on the left dispatch to their own operators
+                        rep.case(("fcmp", a, b, kind, desc), nontrivial=True)
+                        try:
+                            got = bool(numpy.all(call()))
+                        except Exception as ex:
+                            rep.violation("Function comparison %s raises %s" % (desc, type(ex).__name__), {"kind": kind}); continue
+                        if got != want:
+                            rep.violation("Function comparison %s (%s operands)" % (desc, kind), {"a": a, "b": b, "got": got, "numpy": want})
+
+
 def dispatch(rep):
     algopy = load_algopy()
     from algopy import UTPM
@@ -175,6 +209,7 @@ def run(rep, tier, seed):
     ]
     U.relational_check(rep, configs, "zeroth", limit=lim)
     functions_zeroth(rep, seed)
+    function_comparisons(rep)
     dispatch(rep)
     U.self_test(rep)
     rep.assumptions += ["NumPy/SciPy are the reference (as the property states); factor matrices fixed only up to sign/layout (singular vectors, eig) are excluded here and covered by C08"]
